@@ -1,0 +1,18 @@
+//go:build verif
+
+package pager
+
+import "git.sr.ht/~rockorager/vaxis"
+
+// Hook for the verification harness (/verif, property C19): read-only snapshot
+// of the laid-out lines.
+
+// VerifLines returns a copy of the cells of every laid-out line and the width
+// the layout was made for.
+func (m *Model) VerifLines() (lines [][]vaxis.Cell, width int) {
+	lines = make([][]vaxis.Cell, len(m.lines))
+	for i, l := range m.lines {
+		lines[i] = append([]vaxis.Cell{}, l.characters...)
+	}
+	return lines, m.width
+}
